@@ -1,6 +1,7 @@
 import Ebu.Generated.Consts
 import Ebu.Props.C03
 import Ebu.Proofs.PersistConc
+import Ebu.Generated.SqlFacts
 import Ebu.Spec.Log
 import Ebu.Proofs.Log
 /-!
@@ -114,6 +115,13 @@ theorem concurrent_appends_increasing (recs sched : List Nat) :
     s.log.map (·.1) = List.range' 1 s.log.length ∧ (s.log.map (·.2)).Perm (Ebu.PersistConc.persistedRecs s) ∧
     (([0, 1, 0, 1].foldl Ebu.PersistConc.ustepAt { threads := [{ record := 7 }, { record := 8 }] }).log.map (·.1)) = [1, 1] :=
   ⟨(Ebu.PersistConc.offsets_ok recs sched).1, Ebu.PersistConc.log_ok recs sched, Ebu.PersistConc.unlocked_duplicates_offsets⟩
+
+/-- … and `MemoryStore.Append` is that one step in the CURRENT source: offset reservation and insertion share one
+write-locked critical section; the SQLite store leaves its connection pool unconstrained (an in-memory database lives as
+long as one connection is open, and a reader must not starve a writer of connections) -/
+theorem memory_append_one_step_sqlite_pool_free : Ebu.Locks.MemAppendAtomic Ebu.Generated.accessFacts = true ∧
+    Ebu.Generated.Sql.poolCalls = [] :=
+  ⟨Ebu.Props.C03.facts_memstore_append_atomic, by decide⟩
 
 /-- the memory store's offset counter and event slice are only touched under its mutex (write
 locked for Append) in the CURRENT source: concurrent appenders cannot interleave "reserve offset"
